@@ -100,6 +100,14 @@ fn main() {
             std::process::exit(2);
         }
         "shard" => {
+            // the shard's private scratch directory (/dev/shm/fjv-<pid>) goes away with the shard
+            struct Clean;
+            impl Drop for Clean {
+                fn drop(&mut self) {
+                    let _ = std::fs::remove_dir_all(driver::scratch_root());
+                }
+            }
+            let _clean = Clean;
             let shard: u32 = arg(&args, "--shard").and_then(|s| s.parse().ok()).unwrap_or(0);
             let cases: u32 = arg(&args, "--cases").and_then(|s| s.parse().ok()).unwrap_or(10);
             let out = arg(&args, "--out").expect("--out");
